@@ -1,5 +1,325 @@
 package main
 
+// A small POSIX-style file-system model for the persist/file harnesses.
+//
+//   - files live in one flat namespace keyed by their full path (a Str, possibly with
+//     symbolic bytes: lookups fork on equality);
+//   - every mutation is a *step*: create/truncate, each byte written, rename, remove;
+//     the harness may ask for a crash at step c (verifFSCrashAt) -- the operation in progress
+//     stops there, the call never returns (a panic with a recognisable value unwinds to the
+//     harness, which then "restarts");
+//   - the harness may make the n-th write call fail after k bytes (verifFSWriteError), or the
+//     n-th call of a named kind fail outright with a generic error (verifFSFailOp);
+//   - os.WriteFile = create/truncate, write, close (not atomic: its documented behaviour);
+//     os.Rename is atomic; os.CreateTemp creates a fresh name in the given directory.
+
+import (
+	"fmt"
+	"go/types"
+	"strings"
+)
+
+type fsFileEnt struct {
+	path    Str
+	content []*Term
+}
+
+type fsModel struct {
+	files      []*fsFileEnt
+	steps      int
+	crashAt    int // -1 = never
+	writeCalls int
+	werrCall   int // -1 = none
+	werrAfter  int
+	failKind   string
+	failAt     int // n-th call of failKind fails (0-based); -1 none
+	kindCount  map[string]int
+	tmpSeq     int
+	errNotExist, errIO, errOther iface
+	opLog      []string
+}
+
+type fsHandle struct {
+	ent    *fsFileEnt
+	closed bool
+}
+
 var fsIntrinsics = map[string]intrinsic{}
 
-type fsModel struct{}
+const crashMsg = "verif: simulated crash"
+
+func (in *Interp) fsm() *fsModel {
+	if in.fs == nil {
+		f := &fsModel{crashAt: -1, werrCall: -1, failAt: -1, kindCount: map[string]int{}}
+		mk := func(msg string) iface {
+			var cell value = structure{in.strConst(msg)}
+			return iface{t: types.NewPointer(in.eng.namedType("errors", "errorString")), v: &cell}
+		}
+		f.errNotExist = mk("file does not exist")
+		f.errIO = mk("input/output error")
+		f.errOther = mk("operation not permitted")
+		in.fs = f
+	}
+	return in.fs
+}
+
+func (in *Interp) fsStep(what string) {
+	f := in.fsm()
+	if f.crashAt >= 0 && f.steps == f.crashAt {
+		f.crashAt = -1
+		panic(targetPanic{iface{t: types.Typ[types.String], v: in.strConst(crashMsg)}})
+	}
+	f.steps++
+}
+
+// fsFail reports whether this call of the given kind is the one the harness asked to fail.
+func (in *Interp) fsFail(kind string) bool {
+	f := in.fsm()
+	n := f.kindCount[kind]
+	f.kindCount[kind] = n + 1
+	return f.failKind == kind && f.failAt == n
+}
+
+func (in *Interp) fsFind(path Str) *fsFileEnt {
+	f := in.fsm()
+	for _, e := range f.files {
+		eq := in.strEq(e.path, path)
+		if eq.isFalse() {
+			continue
+		}
+		if in.decideBool(eq, "fs-path") {
+			return e
+		}
+	}
+	return nil
+}
+
+func (in *Interp) fsRemove(ent *fsFileEnt) {
+	f := in.fsm()
+	for i, e := range f.files {
+		if e == ent {
+			f.files = append(f.files[:i:i], f.files[i+1:]...)
+			return
+		}
+	}
+}
+
+func (in *Interp) fsCreate(path Str) *fsFileEnt {
+	in.fsStep("create")
+	e := in.fsFind(path)
+	if e == nil {
+		e = &fsFileEnt{path: path}
+		in.fsm().files = append(in.fsm().files, e)
+	}
+	e.content = nil
+	return e
+}
+
+// fsWrite appends data to ent; returns bytes written and whether an injected error stopped it.
+func (in *Interp) fsWrite(ent *fsFileEnt, data []*Term) (int, bool) {
+	f := in.fsm()
+	call := f.writeCalls
+	f.writeCalls++
+	for i, b := range data {
+		if f.werrCall == call && i == f.werrAfter {
+			return i, true
+		}
+		in.fsStep("byte")
+		ent.content = append(ent.content, b)
+	}
+	return len(data), false
+}
+
+func errRes(e iface) value { return e }
+
+func init() {
+	nilErr := iface{}
+	fsIntrinsics["os.Stat"] = func(fr *frame, a []value) value {
+		in := fr.in
+		f := in.fsm()
+		if in.fsFail("stat") {
+			return tuple{iface{}, f.errOther}
+		}
+		if in.fsFind(a[0].(Str)) == nil {
+			return tuple{iface{}, f.errNotExist}
+		}
+		return tuple{iface{}, nilErr}
+	}
+	fsIntrinsics["os.IsNotExist"] = func(fr *frame, a []value) value {
+		in := fr.in
+		e := a[0].(iface)
+		ne := in.fsm().errNotExist
+		return in.tc.Bool(e.t != nil && e.v == ne.v)
+	}
+	fsIntrinsics["os.ReadFile"] = func(fr *frame, a []value) value {
+		in := fr.in
+		f := in.fsm()
+		if in.fsFail("read") {
+			return tuple{[]value(nil), f.errIO}
+		}
+		e := in.fsFind(a[0].(Str))
+		if e == nil {
+			return tuple{[]value(nil), f.errNotExist}
+		}
+		out := make([]value, len(e.content))
+		for i, b := range e.content {
+			out[i] = b
+		}
+		return tuple{out, nilErr}
+	}
+	fsIntrinsics["os.WriteFile"] = func(fr *frame, a []value) value {
+		in := fr.in
+		f := in.fsm()
+		if in.fsFail("create") {
+			return f.errOther
+		}
+		e := in.fsCreate(a[0].(Str))
+		if _, bad := in.fsWrite(e, toBytes(a[1])); bad {
+			return f.errIO
+		}
+		return nilErr
+	}
+	fsIntrinsics["os.Rename"] = func(fr *frame, a []value) value {
+		in := fr.in
+		f := in.fsm()
+		if in.fsFail("rename") {
+			return f.errOther
+		}
+		src := in.fsFind(a[0].(Str))
+		if src == nil {
+			return f.errNotExist
+		}
+		in.fsStep("rename")
+		if dst := in.fsFind(a[1].(Str)); dst != nil && dst != src {
+			in.fsRemove(dst)
+		}
+		src.path = a[1].(Str)
+		return nilErr
+	}
+	fsIntrinsics["os.Remove"] = func(fr *frame, a []value) value {
+		in := fr.in
+		f := in.fsm()
+		if in.fsFail("remove") {
+			return f.errOther
+		}
+		e := in.fsFind(a[0].(Str))
+		if e == nil {
+			return f.errNotExist
+		}
+		in.fsStep("remove")
+		in.fsRemove(e)
+		return nilErr
+	}
+	fsIntrinsics["os.CreateTemp"] = func(fr *frame, a []value) value {
+		in := fr.in
+		f := in.fsm()
+		if in.fsFail("create") {
+			return tuple{(*value)(nil), f.errOther}
+		}
+		dir, pat := a[0].(Str), a[1].(Str)
+		f.tmpSeq++
+		rnd := in.strConst(fmt.Sprintf("%09d", f.tmpSeq))
+		// pattern: the last "*" is replaced by the random string, else it is appended
+		pb := pat.b
+		star := -1
+		for i, t := range pb {
+			if t.isConst() && t.cv() == '*' {
+				star = i
+			}
+		}
+		var name []*Term
+		if star >= 0 {
+			name = append(append(append(name, pb[:star]...), rnd.b...), pb[star+1:]...)
+		} else {
+			name = append(append(name, pb...), rnd.b...)
+		}
+		path := append(append(append([]*Term{}, dir.b...), in.tc.Const(8, '/')), name...)
+		e := in.fsCreate(Str{path})
+		var cell value = &fsHandle{ent: e}
+		return tuple{&cell, nilErr}
+	}
+	handle := func(in *Interp, v value) *fsHandle {
+		p, ok := v.(*value)
+		if !ok || p == nil {
+			in.targetPanicStr("runtime error: invalid memory address or nil pointer dereference (*os.File)")
+		}
+		h, ok := (*p).(*fsHandle)
+		if !ok {
+			panic(engineError{"*os.File not created by the file-system model"})
+		}
+		return h
+	}
+	fsIntrinsics["(*os.File).Write"] = func(fr *frame, a []value) value {
+		in := fr.in
+		f := in.fsm()
+		h := handle(in, a[0])
+		if h.closed {
+			return tuple{in.tc.Const(64, 0), f.errOther}
+		}
+		n, bad := in.fsWrite(h.ent, toBytes(a[1]))
+		if bad {
+			return tuple{in.tc.Const(64, uint64(n)), f.errIO}
+		}
+		return tuple{in.tc.Const(64, uint64(n)), nilErr}
+	}
+	fsIntrinsics["(*os.File).Close"] = func(fr *frame, a []value) value {
+		in := fr.in
+		h := handle(in, a[0])
+		if in.fsFail("close") {
+			h.closed = true
+			return in.fsm().errIO
+		}
+		h.closed = true
+		return nilErr
+	}
+	fsIntrinsics["(*os.File).Sync"] = func(fr *frame, a []value) value {
+		in := fr.in
+		handle(in, a[0])
+		if in.fsFail("sync") {
+			return in.fsm().errIO
+		}
+		return nilErr
+	}
+	fsIntrinsics["(*os.File).Name"] = func(fr *frame, a []value) value {
+		return handle(fr.in, a[0]).ent.path
+	}
+
+	// harness controls
+	regVerif("verifFSCrashAt", func(fr *frame, a []value) value {
+		f := fr.in.fsm()
+		f.crashAt = int(sext64(mustConc(a[0]), 64))
+		if f.crashAt >= 0 {
+			f.crashAt += f.steps
+		}
+		return nil
+	})
+	regVerif("verifFSWriteError", func(fr *frame, a []value) value {
+		f := fr.in.fsm()
+		f.werrCall = int(sext64(mustConc(a[0]), 64))
+		if f.werrCall >= 0 {
+			f.werrCall += f.writeCalls
+		}
+		f.werrAfter = int(mustConc(a[1]))
+		return nil
+	})
+	regVerif("verifFSFailOp", func(fr *frame, a []value) value {
+		f := fr.in.fsm()
+		f.failKind = strArg(a[0])
+		f.failAt = int(sext64(mustConc(a[1]), 64))
+		if f.failAt >= 0 {
+			f.failAt += f.kindCount[f.failKind]
+		}
+		return nil
+	})
+	regVerif("verifFSSteps", func(fr *frame, a []value) value {
+		return fr.in.tc.Const(64, uint64(fr.in.fsm().steps))
+	})
+	regVerif("verifFSDir", func(fr *frame, a []value) value { return fr.in.strConst("/verifdir") })
+	regVerif("verifCrashed", func(fr *frame, a []value) value {
+		return fr.in.tc.Bool(strings.Contains(fr.in.lastPanic, crashMsg))
+	})
+	// verifFSPut(path, bytes): place a file directly (used to build pre-crash states for replays)
+	regVerif("verifFSFiles", func(fr *frame, a []value) value {
+		return fr.in.tc.Const(64, uint64(len(fr.in.fsm().files)))
+	})
+}
